@@ -369,10 +369,16 @@ func (q *qelim) nnf(t *smt.Term, pos bool) *smt.Term {
 					cset = append(cset, x)
 				}
 			}
-			for _, x := range q.cands {
-				if !have[x.ID] {
-					have[x.ID] = true
-					cset = append(cset, x)
+			// index variables of definitional axioms (the elements of a named
+			// sequence, the bytes of a string) are instantiated by E-matching
+			// only: such an axiom is needed exactly where its left-hand side
+			// occurs, never at every index term of the query
+			if !strings.HasPrefix(t.Vars[i].Name, "?def") {
+				for _, x := range q.cands {
+					if !have[x.ID] {
+						have[x.ID] = true
+						cset = append(cset, x)
+					}
 				}
 			}
 			for _, cand := range cset {
